@@ -70,7 +70,7 @@ func genBindCase(t *rapid.T) BindCase {
 func TestC19(t *testing.T) {
 	rapid.Check(t, func(rt *rapid.T) {
 		c := genBindCase(rt)
-		st, err := pbt.Safe(runBind, c)
+		st, err := pbt.SafeJ("C19", "bind", runBind, c)
 		if st == nil {
 			st = &bindStats{}
 		}
